@@ -21,7 +21,8 @@
   processor (`Item`): a regular event with what the case says about it (`EvSpec`), a time-out
   event, or `gap` = instantGet found the stream empty (the processor leaves).
 
-  Not modelled: match conditions (`isMatch`; every action sees every event), metrics,
+  Match conditions are an input (`EvSpec.skip`: the positions whose condition the event fails);
+  a busy action gets every event. Not modelled: metrics,
   the action watcher, unlock events, several processors taking turns on one stream with their
   own plugin instances (one action state is kept; under the discipline of M2 nothing is held
   when a processor leaves, so the instances are interchangeable).
@@ -42,6 +43,8 @@ structure EvSpec where
   vs   : List Verdict := []   -- verdict of the plain action that reads position i (missing: pass)
   js   : List JCls := []      -- class under join field f (missing: absent)
   kids : Nat := 0             -- object elements of the split field
+  skip : List Nat := []       -- chain positions whose match condition this event does not satisfy
+  kidSkip : List Nat := []    -- the same for its children (they carry none of the matched fields)
 deriving Repr, DecidableEq
 
 inductive Act | plain (i : Nat) | holder (f : Nat) | spawner
@@ -51,7 +54,7 @@ deriving Repr, DecidableEq
 inductive Ev
   | reg (e : EvSpec)
   | tmo
-  | child
+  | child (skip : List Nat)
 deriving Repr, DecidableEq
 
 inductive Item | ev (e : EvSpec) | tmo | gap
@@ -98,7 +101,14 @@ def plainVerdict (ev : Ev) (i : Nat) : Verdict :=
   match ev with
   | .reg e => e.vs.getD i .pass
   | .tmo => .discard
-  | .child => .pass
+  | .child _ => .pass
+
+/-- `!isMatch(index, event)`: the event does not satisfy the action's match condition -/
+def skips (ev : Ev) (idx : Nat) : Bool :=
+  match ev with
+  | .reg e => e.skip.contains idx
+  | .tmo => false
+  | .child sk => sk.contains idx
 
 def joinCls (ev : Ev) (f : Nat) : JCls :=
   match ev with
@@ -113,17 +123,22 @@ def doActs : Nat → List Act → Nat → Ev → PS → PS × Res
   | fuel+1, acts, idx, ev, ps =>
     match acts[idx]? with
     | none => (ps, .passed)
-    | some (.plain i) =>
+    | some a =>
+    -- `if !p.busyActions[index] && !event.IsTimeoutKind() { if !p.isMatch(index, event) { continue } }`
+    if !isBusy ps idx && skips ev idx then doActs fuel acts (idx+1) ev ps
+    else
+    match a with
+    | .plain i =>
       match plainVerdict ev i with
       | .pass => doActs fuel acts (idx+1) ev (resetBusy ps idx)
       | .brk => (resetBusy ps idx, .passed)
       | .discard => (fin (resetBusy ps idx) ev true, .stopped idx)
-    | some .spawner =>
+    | .spawner =>
       match ev with
       | .reg e =>
         if e.kids = 0 then doActs fuel acts (idx+1) ev (resetBusy ps idx)
         else
-          match spawnKids fuel acts idx e.kids ps with
+          match spawnKids fuel acts idx e.kidSkip e.kids ps with
           | (ps1, some why) => (ps1, .halt why)
           | (ps1, none) =>
             if busyTotal ps1 = 0 then (resetBusy ps1 idx, .passed)
@@ -132,7 +147,7 @@ def doActs : Nat → List Act → Nat → Ev → PS → PS × Res
               | (ps2, some why) => (ps2, .halt why)
               | (ps2, none) => (resetBusy ps2 idx, .passed)      -- ActionBreak
       | _ => doActs fuel acts (idx+1) ev (resetBusy ps idx)
-    | some (.holder f) =>
+    | .holder f =>
       let joining := (heldAt ps idx).isSome
       match ev with
       | .tmo =>
@@ -186,7 +201,7 @@ def procEv : Nat → List Act → Ev → Nat → PS → PS × Res
       match ev with
       | .reg e => (emit ps1 (.out e.seq), .passed)
       | .tmo => (ps1, .halt "unmodelled:timeout-event-passed")
-      | .child => (ps1, .passed)
+      | .child _ => (ps1, .passed)
     | (ps1, .stopped last) =>
       if busyTotal ps1 = 0 then (ps1, .stopped last)
       else
@@ -197,13 +212,13 @@ def procEv : Nat → List Act → Ev → Nat → PS → PS × Res
         | .tmo :: rest => procEv fuel acts .tmo (timeoutAction ps1 last) (emit { ps1 with ins := rest } .getTimeout)
 
 /-- Spawn: the children run through the actions after the spawner -/
-def spawnKids : Nat → List Act → Nat → Nat → PS → PS × Option String
-  | 0, _, _, _, ps => (ps, some "fuel")
-  | _+1, _, _, 0, ps => (ps, none)
-  | fuel+1, acts, idx, k+1, ps =>
-    match doActs fuel acts (idx+1) .child ps with
+def spawnKids : Nat → List Act → Nat → List Nat → Nat → PS → PS × Option String
+  | 0, _, _, _, _, ps => (ps, some "fuel")
+  | _+1, _, _, _, 0, ps => (ps, none)
+  | fuel+1, acts, idx, sk, k+1, ps =>
+    match doActs fuel acts (idx+1) (.child sk) ps with
     | (ps1, .halt why) => (ps1, some why)
-    | (ps1, _) => spawnKids fuel acts idx k ps1
+    | (ps1, _) => spawnKids fuel acts idx sk k ps1
 
 /-- Spawn: every action that is busy afterwards gets a time-out event -/
 def spawnTmos : Nat → List Act → Nat → PS → PS × Option String
